@@ -29,7 +29,7 @@ def some_python_code() -> None:
     3
     _, _, *args, _, _, _ = source_of_stuff()
     do_stuff_with(args)
-    _, _, *_, _, _, _ = source_of_stuff()
+    source_of_stuff()
     t, _, k, _ = source_of_stuff()
     print(t + k)
     return 0
